@@ -13,8 +13,19 @@ body are submissions in body order, each as a single-alert POST at that instant;
 submission is the younger alert.  MC_Alerts_dup.cfg: clauses over all such bodies (DupRules,
 SubmissionOrder); MC_Alerts_swap.cfg: with the other reading of the stamp comparison TLC must find
 a history that contradicts SubmissionOrder.  Gen_AlertsDup: every pair of submissions at one
-instant, as one body and as two requests; Gen_Alerts simulations mix both into long histories."""
-import json, os, re, hashlib
+instant, as one body and as two requests; Gen_Alerts simulations mix both into long histories.
+
+Concurrent stage (all stages above are sequential; the statement - and C03 / C14, whose verdicts depend on
+the LATEST version of an alert - quantify over every interleaving): spec/AlertsConc.tla = the provider as a
+concurrent object (Call / internal Lin / Ret per operation with Alerts.tla's Put semantics at the Lin step,
+delivery queues per subscriber and label set, GC ticker); MC_AlertsConc*.cfg: InOrder / Quiescent hold for
+the code's design and are refuted for the two rejected designs (fan-out after the mutex is released;
+snapshot copied before the mutex).  harness/c13 TestConc records thousands of small histories of ONE real
+provider + API under real concurrency (Put and POST from 3-4 goroutines, Get, GET, Subscribe /
+SlurpAndSubscribe, a fast and a deliberately slow subscriber whose full channel blocks a Put in the
+middle of its fan-out, GC ticker) and spec/mc/Trace_AlertsConc.tla lets TLC decide whether each history
+is linearizable; a quiescence oracle compares the last version every subscriber learned with the stored one."""
+import json, os, re, hashlib, time
 from concurrent.futures import ThreadPoolExecutor
 from lib import vlib
 from lib.vlib import log
@@ -119,6 +130,202 @@ def trim_sample(raw, n=5):
 def sum_counters(results):
     keys = set().union(*[r["counters"].keys() for r in results]) if results else set()
     return {k: sum(r["counters"].get(k, 0) for r in results) for k in sorted(keys)}
+
+
+
+# ------------------------------------------------------------------ concurrent histories (AlertsConc.tla)
+CONC_MC = (("MC_AlertsConc.cfg", None), ("MC_AlertsConc_sub.cfg", None),
+           ("MC_AlertsConc_unlocked.cfg", "InOrder"), ("MC_AlertsConc_early.cfg", "InOrder"))
+
+
+def conc_model_check(pid):
+    """The design level: the properties hold for the code's design (mutex held over store and fan-out; snapshot
+    and registration in one critical section) and TLC refutes them for the two rejected designs."""
+    out = {}
+    for cfg, must_fail in CONC_MC:
+        r = vlib.tlc(pid, "conc_" + cfg[3:-4].lower(), "MC_AlertsConc", cfg, workers=2, timeout=300)
+        if must_fail:
+            if r.violated != must_fail:
+                raise vlib.Inconclusive("%s: expected TLC to refute %s for the rejected design, got %s %s (see %s)" %
+                                        (cfg, must_fail, r.violated, r.error, r.stdout_path))
+            out[cfg] = "%s refuted after %d states (expected: rejected design)" % (must_fail, r.generated)
+        else:
+            vlib.tlc_must_pass(r, cfg)
+            out[cfg] = [r.distinct, r.generated]
+    return out
+
+
+def conc_validate(pid, name, lines, max_rejects=3, timeout=240):
+    """TLC decides which of the concatenated histories are linearizable.  Returns (rejects, states, wall):
+    rejects = [(run, index of the unexplainable event within the history, event, history lines)]."""
+    rejects, states, t0 = [], 0, time.time()
+    while lines and len(rejects) < max_rejects:
+        d = os.path.join(vlib.OUT, pid, "conc_" + name)
+        os.makedirs(d, exist_ok=True)
+        tp = os.path.join(d, "trace.ndjson")
+        open(tp, "w").write("\n".join(lines) + "\n")
+        r = vlib.tlc(pid, "trace_conc_" + name, "Trace_AlertsConc", "Trace_AlertsConc.cfg", workers=1, timeout=timeout, files=[tp])
+        states += r.distinct or 0
+        if r.timed_out:
+            raise vlib.Inconclusive("Trace_AlertsConc (%s) timed out" % name)
+        txt = open(r.stdout_path, errors="replace").read()
+        m = re.search(r'"@@REJECT",\s*(\d+)', txt)
+        if not m:
+            if r.violated or r.error or r.rc != 0:
+                raise vlib.Inconclusive("Trace_AlertsConc (%s): TLC trouble: %s %s (see %s)" % (name, r.violated, r.error, r.stdout_path))
+            break
+        k = int(m.group(1))
+        if not 1 <= k <= len(lines):
+            raise vlib.Inconclusive("Trace_AlertsConc (%s): reject index %d outside the trace (see %s)" % (name, k, r.stdout_path))
+        ev = json.loads(lines[k - 1])
+        run = ev["run"]
+        idx = [i for i, x in enumerate(lines) if json.loads(x)["run"] == run]
+        rejects.append((run, k - 1 - idx[0], ev, [lines[i] for i in idx]))
+        lines = lines[idx[-1] + 1:]          # everything before was accepted
+    return rejects, states, time.time() - t0
+
+
+def conc_oracle(hist):
+    """Independent recomputation of the quiescence oracle from a recorded history: for every subscriber the
+    last version it learned of a label set (returned snapshot, then receives) against the final provider.Get."""
+    ops, known, final, bad = {}, {}, {}, []
+    key = lambda m: (m["s"], m["e"], m["tag"], m["u"])
+    for e in hist:
+        if e["e"] == "call":
+            ops[e["o"]] = e
+        elif e["e"] == "ret":
+            c = ops.get(e["o"], {})
+            if c.get("k") == "slurp":
+                for m in e["r"]:
+                    known.setdefault(c["sub"], {})[m["ls"]] = m
+            elif c.get("k") == "sub":
+                known.setdefault(c["sub"], {})
+            elif c.get("k") == "get" and e["o"] >= 9100:
+                final[c["ls"]] = e["r"]
+        elif e["e"] == "recv":
+            known.setdefault(e["sub"], {})[e["m"]["ls"]] = e["m"]
+    for sub, kn in sorted(known.items()):
+        for ls, f in sorted(final.items()):
+            k = kn.get(ls)
+            if f and (k is None or key(k) != key(f[0])):
+                bad.append("subscriber %s last learned %s for label set %s, the provider holds %s" % (sub, k, ls, f[0]))
+            elif not f and k is not None and k["e"] > 10:
+                bad.append("subscriber %s last learned the firing version %s for label set %s, the provider holds no alert" % (sub, k, ls))
+    return bad
+
+
+def conc_describe(ev):
+    if ev.get("e") == "recv":
+        m = ev["m"]
+        return "subscriber %s receives label set %s [start %+dh, end %+dh, tag %d, stamp #%d]" % (ev["sub"], m["ls"], m["s"] - 10, m["e"] - 10, m["tag"], m["u"])
+    if ev.get("e") == "ret":
+        return "operation %d returns %s%s" % (ev["o"], json.dumps(ev.get("r")), (" deleted " + json.dumps(ev["d"])) if ev.get("d") else "")
+    return json.dumps(ev)
+
+
+def conc_stage(pid, tier, v, binp):
+    """Concurrent histories of the real provider + API, judged by TLC (linearizability) and by the oracle."""
+    wd = os.path.join(vlib.OUT, pid)
+    thorough = tier == "thorough"
+    n_hist, n_tlc, chunks = (24000, 8000, 8) if thorough else (3200, 1200, 4)
+    tp, rp = os.path.join(wd, "conc_trace.ndjson"), os.path.join(wd, "conc_result.json")
+    t0 = time.time()
+    rc, txt = vlib.go_run_test(binp, "TestConc$", ["-trace", tp, "-out", rp, "-n", str(n_hist), "-seed", str(vlib.seed()),
+                                                   "-par", "4", "-budget", "60s" if thorough else "12s"], timeout=600)
+    if rc != 0:
+        raise vlib.Inconclusive("concurrent-history harness failed:\n" + txt[-3000:])
+    res = vlib.load_result(rp)
+    for m in res["mismatches"]:
+        if m.get("class") == "harness":
+            raise vlib.Inconclusive("concurrent-history harness trouble in history %s: %s" % (m.get("case"), m["what"]))
+    go_wall = time.time() - t0
+    cnt = res["counters"]
+    log("  conc: %d histories (%d events, %d operations) recorded in %.1fs; two Puts of one label set overlapped in %d, a Put blocked on the full "
+        "channel of the slow subscriber in %d (both: %d), Put against Subscribe in %d, %d GC deletions, %d oracle failures" %
+        (res["cases"], res["steps"], cnt.get("ops", 0), go_wall, cnt.get("overlapping_puts_of_one_label_set", 0),
+         cnt.get("put_blocked_on_full_channel", 0), cnt.get("overlap_and_blocked", 0), cnt.get("put_overlapping_subscribe", 0),
+         cnt.get("gc_deleted", 0), cnt.get("oracle_failures", 0)))
+
+    # histories for TLC: the first n_tlc, in `chunks` TLC runs side by side
+    by_run, order = {}, []
+    for line in open(tp):
+        line = line.strip()
+        if not line:
+            continue
+        m = re.match(r'\{"run":(\d+),', line)
+        run = int(m.group(1))
+        if run not in by_run:
+            by_run[run] = []
+            order.append(run)
+        by_run[run].append(line)
+    order.sort()
+    pick = order[:n_tlc]
+    parts = [pick[i::chunks] for i in range(chunks)]
+    pool = ThreadPoolExecutor(max_workers=chunks)
+    futs = [pool.submit(conc_validate, pid, "c%d" % i, [l for r in part for l in by_run[r]]) for i, part in enumerate(parts) if part]
+    try:
+        outs = [f.result() for f in futs]
+    finally:
+        pool.shutdown(wait=True)
+    states = sum(o[1] for o in outs)
+    tlc_wall = max(o[2] for o in outs) if outs else 0
+    rejects = [r for o in outs for r in o[0]]
+    log("  conc: TLC searched the linearizations of %d histories (%d states, %d runs side by side, %.1fs): %d not linearizable" %
+        (len(pick), states, len(futs), tlc_wall, len(rejects)))
+
+    def artefact(run, hist_lines, note, idx=None):
+        p = os.path.join(wd, "conc_history_%d.json" % run)
+        json.dump({"conc_history": [json.loads(x) for x in hist_lines], "rejected_event": idx, "note": note, "seed": vlib.seed()}, open(p, "w"), indent=0)
+        return p
+
+    def revalidate(run, hist_lines):
+        rj, _, _ = conc_validate(pid, "re%d" % run, list(hist_lines), max_rejects=1)
+        return rj[0] if rj else None
+
+    reported = set()
+    # a history no linearization explains: one re-validation (alone, fresh TLC run) excludes tool trouble
+    for run, idx, ev, hist_lines in rejects[:4]:
+        again = revalidate(run, hist_lines)
+        if again is None or again[1] != idx:
+            raise vlib.Inconclusive("history %d was rejected at event %d in the concatenated trace but %s when validated alone: tool trouble" %
+                                    (run, idx, "accepted" if again is None else "rejected at event %d" % again[1]))
+        orc = conc_oracle([json.loads(x) for x in hist_lines])
+        note = ("concurrent history %d of the real provider + API is not linearizable (AlertsConc.tla: Put = store + fan-out to every subscriber in one step "
+                "between call and return; a subscriber receives the versions of one label set in the order the store applied them): no order of the overlapping "
+                "operations explains event %d: %s%s" % (run, idx + 1, conc_describe(ev), ("; at quiescence " + orc[0]) if orc else ""))
+        v.violation(note, [artefact(run, hist_lines, note, idx)])
+        reported.add(run)
+    # the oracle: last version a subscriber learned differs from the stored one at quiescence
+    n_or = 0
+    for m in res["mismatches"]:
+        if m.get("class") != "oracle" or m["case"] in reported or n_or >= 3:
+            continue
+        hist_lines = [json.dumps(x, separators=(",", ":")) for x in m["replay"]]
+        orc = conc_oracle(m["replay"])
+        again = revalidate(m["case"], hist_lines)
+        if not orc or again is None:
+            raise vlib.Inconclusive("history %d: the harness reports '%s' but the re-validation does not confirm it (recomputed oracle: %s, TLC: %s): tool trouble" %
+                                    (m["case"], m["what"], orc[:1], "accepted" if again is None else "rejected"))
+        note = ("concurrent history %d of the real provider + API: at quiescence (every operation returned, every channel drained) %s - the subscriber "
+                "(inhibitor, dispatcher) keeps acting on a version the provider and GET /api/v2/alerts no longer hold; TLC finds no linearization either "
+                "(first unexplainable event %d: %s)" % (m["case"], orc[0], again[1] + 1, conc_describe(again[2])))
+        v.violation(note, [artefact(m["case"], hist_lines, note, again[1])])
+        reported.add(m["case"])
+        n_or += 1
+
+    need = {"overlapping_puts_of_one_label_set": 200, "put_blocked_on_full_channel": 200, "overlap_and_blocked": 150,
+            "put_overlapping_subscribe": 100, "gc_deleted": 30, "merged_versions_received": 500}
+    if not v.violations:
+        for k, n in need.items():
+            if cnt.get(k, 0) < n:
+                raise vlib.Inconclusive("concurrent histories reached too few cases of %s (%d < %d)" % (k, cnt.get(k, 0), n))
+        if len(pick) < 400:
+            raise vlib.Inconclusive("too few concurrent histories recorded (%d)" % len(pick))
+    return {"histories_recorded": res["cases"], "events": res["steps"], "operations": cnt.get("ops", 0),
+            "histories_checked_by_oracle": res["cases"], "histories_linearized_by_tlc": len(pick), "tlc_states": states,
+            "tlc_runs": len(futs), "tlc_wall_s": round(tlc_wall, 1), "record_wall_s": round(go_wall, 1),
+            "not_linearizable": len(rejects), "oracle_failures": cnt.get("oracle_failures", 0),
+            "counters": {k: cnt.get(k, 0) for k in sorted(need)}, "sample": (res["samples"] or [None])[0]}
 
 
 # ------------------------------------------------------------------ the check
